@@ -103,6 +103,63 @@ def call_nt(sysm, pt, ops, specs, orders, rho0, start, dt=None):
                      ops_order=orders, initial_state=rho0, start_time=start, dt=dt, progress_type="silent")
 
 
+def bath_modes(chk, n):
+    """pure-dephasing model: bath-mode occupations and two-time bath correlations derived from the system
+    correlations against the displaced-oscillator (independent boson) closed form"""
+    from oqupy.bath_dynamics import TwoTimeBathCorrelations
+    rng = chk.rng
+
+    def exact_occupation(t, w, g, temp):
+        out = g ** 2 / w ** 2 * (2 - 2 * np.cos(w * t))
+        return out + ((np.exp(w / temp) - 1) ** (-1) if temp > 0 else 0.0)
+
+    def exact_correlation(t_1, t_2, w_1, w_2, dagg, g_1, g_2, temp):
+        ph_1 = np.exp(1j * (2 * dagg[1] - 1) * w_1 * t_1)
+        ph_2 = np.exp(1j * (2 * dagg[0] - 1) * w_2 * t_2)
+        out = 0
+        if dagg in ((0, 1), (1, 0)) and w_1 == w_2:
+            out += 1
+            if dagg == (1, 0) and temp > 0:
+                out += (np.exp(w_1 / temp) - 1) ** (-1)
+        out *= ph_1 * ph_2
+        return out + (ph_1 * ph_2 - ph_1 - ph_2 + 1) * (g_1 * g_2) / (w_1 * w_2)
+    for it in range(n):
+        T = rng.choice([0.0, 2.0, 0.5])
+        alpha, wc = rng.choice([0.1, 0.3]), rng.choice([4.0, 10.0])
+        dt = rng.choice([0.1, 0.05])
+        nst = rng.randint(6, 10)
+        up = rng.random() < 0.5
+        w0, w1 = rng.choice([1.0, 2.5]), rng.choice([1.0, 3.0])
+        corr = oqupy.PowerLawSD(alpha=alpha, zeta=1.0, cutoff=wc, cutoff_type="exponential", temperature=T)
+        sz = np.array([[1.0, 0], [0, -1.0]])
+        bath = oqupy.Bath(sz, corr)
+        sysm = oqupy.System(rng.choice([0.0, 1.0, -0.7]) * sz)
+        par = oqupy.TempoParameters(dt=dt, epsrel=1e-8, dkmax=None)
+        info = {"kind": "bath-modes", "T": T, "alpha": alpha, "dt": dt, "steps": nst, "initial": "up" if up else "down", "w": [w0, w1]}
+        try:
+            pt = quiet(oqupy.pt_tempo_compute, bath, 0.0, nst * dt + 1e-9, parameters=par, progress_type="silent")
+            rho0 = np.diag([1.0, 0.0]) if up else np.diag([0.0, 1.0])
+            tb = TwoTimeBathCorrelations(sysm, bath, pt, initial_state=rho0.astype(complex))
+            tl, occ = quiet(tb.occupation, w0, progress_type="silent")
+            g0, g1 = corr.spectral_density(w0) ** 0.5, corr.spectral_density(w1) ** 0.5
+            want = exact_occupation(np.array(tl), w0, g0, T)
+            bad = not np.allclose(occ, want, rtol=1e-4, atol=1e-6)
+            sel = len(tl) // 2
+            for dagg in ((0, 0), (0, 1), (1, 0), (1, 1)):
+                got = quiet(tb.correlation, w0, tl[sel], w1, tl[-1], dagg=dagg, progress_type="silent")
+                ex = exact_correlation(tl[sel], tl[-1], w0, w1, dagg, g0, g1, T)
+                bad = bad or not np.allclose(got, ex, rtol=1e-4, atol=1e-6)
+        except Exception as ex_:
+            chk.fail("bath-modes-raise", f"TwoTimeBathCorrelations raises {ex_!r}", info)
+            continue
+        chk.search_cases += 1
+        chk.count("bath_modes")
+        chk.case(info, ("bath", T, alpha, dt, nst, up, w0, w1))
+        if bad:
+            chk.fail("bath-modes-wrong", "bath-mode occupation / two-time bath correlation of a pure-dephasing model deviates from the "
+                     "displaced-oscillator closed form", info)
+
+
 def run(chk):
     rng = chk.rng
     thorough = chk.tier == "thorough"
@@ -292,6 +349,8 @@ def run(chk):
     except Exception:
         pass
 
+    bath_modes(chk, 10 if thorough else 3)
+
     vals, errs = run_cases("C07", HEADER, exprs, chunk=120)
     for e in errs:
         chk.disagree("coq evaluation", e)
@@ -309,5 +368,5 @@ def run(chk):
              "floats and intervals in both directions on and off the grid, for N in {2,4} (thorough 2,3,4); random 2-4 operator requests "
              "with left/right orders on integer process tensors; ordered/anti two-time correlations with and without stored dt; "
              "distinct = distinct specification / (sizes, orders, spec kinds)",
-        assumptions=["bath_dynamics.py (bath occupations from system correlations) has no executable model; it is not covered by this check",
+        assumptions=["bath_dynamics.py (bath occupations / correlations from system correlations) has no executable model: it is only explored against the displaced-oscillator closed form on pure-dephasing models",
                      "the step a float time lands on is np.round((t-start)/dt), modelled on primitive floats"])
